@@ -77,6 +77,13 @@ class Unloggable(Exception):
     pass
 
 
+class _Opaque:
+    pass
+
+
+OPAQUE = _Opaque()
+
+
 def project(obj):
     """Abstract state of one bitstring object: class, bits, pos, len()."""
     cls = type(obj).__name__
@@ -100,6 +107,8 @@ def enc_value(x, hint=None):
     import bitstring
     if x is None:
         return [0]
+    if x is OPAQUE:
+        return [13]
     if isinstance(x, bool):
         return [1, int(x)]
     if isinstance(x, bitstring.Bits):
@@ -119,6 +128,10 @@ def enc_value(x, hint=None):
             return [6] + [int(c, 2) for c in x]
         return [12] + [ord(c) for c in x]
     if isinstance(x, (tuple, list)):
+        if hint == 'small':
+            if all(isinstance(e, int) and not isinstance(e, bool) for e in x):
+                return [11] + [enc_small(e)[1] for e in x]
+            return [13]
         if all(isinstance(e, bool) for e in x):
             return [10] + [int(e) for e in x]
         if all(isinstance(e, int) for e in x):
